@@ -371,14 +371,16 @@ func genBadRootCase(r *rand.Rand) Case {
 	return Case{cfg, ops}
 }
 
+var badRootRunner = Runner{Mk: func(c Cfg) Executor { return &badRootExec{cfg: c} }, Norm: func(line, obs string) string {
+	if strings.HasPrefix(line, "mk") {
+		return "ok" // the model takes no part in building the good version
+	}
+	return obs
+}}
+
 func famBadRoots(f *FamCtx) {
 	f.Report.Rule = "a good persisted version, then LoadMast of perturbed roots: unknown/alternative format strings, missing top node, recorded height and branch factor changed, reversed KeyCompare, another key kind in the loader, hand-encoded binary top nodes (unsorted, duplicate key, more keys than values, too many / too few links, truncated, bit-flipped, huge count); outcome enum ok|err|panic|hang compared with the Lean loader model (binary format) and with the harness's own restatement of C19's rejecting conditions; non-trivial = every case (each holds >= 12 perturbed loads)"
-	rn := Runner{Mk: func(c Cfg) Executor { return &badRootExec{cfg: c} }, Norm: func(line, obs string) string {
-		if strings.HasPrefix(line, "mk") {
-			return "ok" // the model takes no part in building the good version
-		}
-		return obs
-	}}
+	rn := badRootRunner
 	f.Gen = func() Case { return genBadRootCase(f.Rand) }
 	n := f.N(150, 5000)
 	for i := 0; i < n; i++ {
